@@ -88,7 +88,7 @@ pub fn show_doc(d: &Document) -> String {
 
 pub fn err_class(e: &lopdf::Error) -> String {
     let s = format!("{:?}", e);
-    for k in ["InvalidKeyLength", "InvalidCipherTextLength", "Padding", "IncorrectPassword", "AlreadyEncrypted", "NotEncrypted",
+    for k in ["UnrepresentablePassword", "InvalidKeyLength", "InvalidCipherTextLength", "Padding", "IncorrectPassword", "AlreadyEncrypted", "NotEncrypted",
               "InvalidRevision", "UnsupportedRevision", "InvalidHashLength", "MissingFileID", "UnsupportedSecurityHandler"] {
         if s.contains(k) { return k.to_string(); }
     }
@@ -358,7 +358,14 @@ pub fn encrypt_real(c: &mut Ctx, cfg: &Config, orig: &Document) -> Result<Encryp
 pub fn decrypt_real(c: &mut Ctx, e: &Encrypted, pw: &str, extra_tbl: &[Vec<u8>]) -> Result<Document, String> { decrypt_real2(c, e, pw, extra_tbl, true) }
 pub fn decrypt_real2(c: &mut Ctx, e: &Encrypted, pw: &str, extra_tbl: &[Vec<u8>], check_unchanged: bool) -> Result<Document, String> {
     let mut d = e.doc.clone();
-    let pw_b = sanitize(&e.doc, pw).unwrap_or_default();
+    let Some(pw_b) = sanitize(&e.doc, pw) else {
+        // the password cannot be prepared (R<=4: a character outside PDFDocEncoding): it must be rejected as such
+        let res = guard(|| d.decrypt(pw));
+        let cls = match &res { Ok(Ok(())) => "ok".to_string(), Ok(Err(err)) => err_class(err), Err(_) => "panic".into() };
+        corr_sanitize(c, &e.doc, pw);
+        if show_doc(&d) != show_doc(&e.doc) { c.oracle_fail("failed-decrypt-mutated", "decrypt with an unpreparable password changed the document", json!({"password": pw, "result": cls})); }
+        return if cls == "ok" { Ok(d) } else { Err(cls) };
+    };
     let res = guard(|| d.decrypt(pw));
     let mut pws = vec![e.owner_b.clone(), e.user_b.clone(), pw_b.clone()]; pws.extend_from_slice(extra_tbl);
     let tbl = h2b_table(e.state.revision(), e.state.owner_value(), e.state.user_value(), &pws);
@@ -374,6 +381,61 @@ pub fn decrypt_real2(c: &mut Ctx, e: &Encrypted, pw: &str, extra_tbl: &[Vec<u8>]
             Err(cls)
         }
         Err((site, msg)) => { c.oracle_fail(&format!("panic@{}", site), &msg, json!({"password": pw})); Err("panic".into()) }
+    }
+}
+
+/// `c5_sanitize`: the model's password preparation against the real `sanitize_password` (R<=4 documents)
+pub fn corr_sanitize(c: &mut Ctx, enc_doc: &Document, pw: &str) {
+    let Ok(alg) = lopdf::encryption::PasswordAlgorithm::try_from(enc_doc) else { return };
+    let units: Vec<u8> = pw.encode_utf16().flat_map(|u| u.to_be_bytes()).collect();
+    let reply = match alg.sanitize_password(pw) { Ok(b) => format!("ok {}", hex_tok(&b)), Err(e) => format!("err {}", err_class(&lopdf::Error::from(e))) };
+    c.corr(format!("c5_sanitize {}", hex_tok(&units)), reply);
+}
+
+/// independent judgement: does the password contain a character PDFDocEncoding certainly lacks
+/// (Greek, Cyrillic, Hebrew, Arabic, …, CJK — PDFDocEncoding is Latin only)?
+pub fn certainly_unrepresentable(pw: &str) -> bool { pw.chars().any(|ch| matches!(ch as u32, 0x0370..=0x1FFF | 0x3000..=0x9FFF | 0xAC00..=0xD7A3)) }
+pub fn certainly_representable(pw: &str) -> bool { pw.chars().all(|ch| matches!(ch as u32, 0x20..=0x7E)) }
+
+/// R<=4 passwords with characters outside PDFDocEncoding: rejected at creation and at every check,
+/// never shortened or treated as empty (stream "unrep")
+fn unrepresentable_cases(c: &mut Ctx) {
+    let pool = ['п', 'а', 'р', 'о', 'л', 'ь', '密', '码', 'λ', 'ש', 'ع', '한'];
+    let n = c.n(40, 400);
+    for i in 0..n {
+        let Some(mut r) = c.case("unrep", i) else { continue };
+        let ver = match r.below(3) { 0 => Ver::V1, 1 => Ver::V2(40 + 8 * r.usize(12)), _ => Ver::V4 };
+        let mut cfg = gen_config(&mut r, Some(ver));
+        let bad: String = { let k = 1 + r.usize(6); let mut s: String = (0..k).map(|_| *r.pick(&pool)).collect(); if r.chance(1, 2) { s.insert_str(0, "pw"); } if r.chance(1, 2) { s.push_str("42"); } s };
+        let orig = gen_doc(&mut r, &GenOpts { stream_dict_strings: true, nested_streams: false, meta_dicts: false, bad_length: false });
+        let case = json!({"config": format!("{:?}", cfg), "bad": bad});
+        // (1) creation with such a user / owner password is an error
+        let which = r.below(2);
+        let mut bad_cfg = cfg.clone(); if which == 0 { bad_cfg.user = bad.clone(); } else { bad_cfg.owner = bad.clone(); }
+        match guard(|| bad_cfg.make_state(&orig)) {
+            Ok(Ok(_)) => c.oracle_fail("non-pdfdoc-password-collapses", "EncryptionState::try_from accepted a password with characters outside PDFDocEncoding", case.clone()),
+            Ok(Err(e)) => { let cls = err_class(&e); if cls == "UnrepresentablePassword" { c.count("unrep.creation_rejected"); } else { c.oracle_fail("unrepresentable-wrong-error", &cls, case.clone()); } }
+            Err((site, msg)) => c.oracle_fail(&format!("panic@{}", site), &msg, case.clone()),
+        }
+        // (2) on a document with representable passwords (possibly empty): such a password is rejected by every entry point
+        if !certainly_representable(&cfg.user) { cfg.user = "user".into(); }
+        if !certainly_representable(&cfg.owner) { cfg.owner = "owner".into(); }
+        if r.chance(1, 3) { cfg.user = String::new(); }
+        let Ok(e) = encrypt_real(c, &cfg, &orig) else { c.oracle_fail("encrypt-failed", "representable passwords", case.clone()); continue };
+        debug_assert!(certainly_unrepresentable(&bad));
+        match decrypt_real(c, &e, &bad, &[]) {
+            Ok(_) => c.oracle_fail("non-pdfdoc-password-collapses", "decrypt accepted a password with characters outside PDFDocEncoding", case.clone()),
+            Err(cls) => if cls == "UnrepresentablePassword" { c.count("unrep.decrypt_rejected"); } else { c.oracle_fail("unrepresentable-wrong-error", &cls, case.clone()); },
+        }
+        for (name, ok) in [("authenticate_password", e.doc.authenticate_password(&bad).is_ok()), ("authenticate_user_password", e.doc.authenticate_user_password(&bad).is_ok()),
+                           ("authenticate_owner_password", e.doc.authenticate_owner_password(&bad).is_ok())] {
+            if ok { c.oracle_fail("non-pdfdoc-password-collapses", &format!("{} accepted a password with characters outside PDFDocEncoding", name), case.clone()); }
+        }
+        // the prepared form of the representable passwords, model against implementation
+        corr_sanitize(c, &e.doc, &cfg.user); corr_sanitize(c, &e.doc, &cfg.owner);
+        let latin: String = (0..1 + r.usize(8)).map(|_| *r.pick(&['é', 'ü', 'ß', 'Ø', 'ñ', '€', '•', 'Ł', 'ﬁ', 'a', '~', ' '])).collect();
+        corr_sanitize(c, &e.doc, &latin);
+        c.nontrivial(&format!("{}{}", bad, show_doc(&e.doc)));
     }
 }
 
@@ -402,7 +464,7 @@ fn count_strings(o: &Object, in_stream_dict: bool, n_plain: &mut usize, n_sd: &m
 pub fn run(c: &mut Ctx) {
     c.rule = "random documents (1-9 objects, sparse ids / generations, strings nested in arrays and dictionaries to depth 4, binary / empty / 15-16-17-byte \
 strings and streams, Metadata / XRef / Crypt-override streams, Metadata dictionaries, wrong or missing Length) x configurations {V1; V2 40..128 step 8; V4 with \
-{RC4,AESV2,Identity} chosen independently for strings and streams; R5; V5} x EncryptMetadata x permission subsets x passwords (empty, ASCII, Latin-1, non-Latin, \
+{RC4,AESV2,Identity} chosen independently for strings and streams; R5; V5} x EncryptMetadata x permission subsets x passwords (empty, ASCII, Latin-1, non-Latin (R>=5; for R<=4 they must be rejected: stream unrep), \
 33-72 and 100-200 bytes incl. 127 / 128, owner = user). Non-trivial = at least one string or stream was present and the configuration is not all-Identity; distinct by encdoc request.".into();
     primitives(c);
     let n = c.n(260, 2500);
@@ -415,6 +477,7 @@ strings and streams, Metadata / XRef / Crypt-override streams, Metadata dictiona
         let orig = gen_doc(&mut r, &opts);
         one_case(c, &mut r, &cfg, &orig, i % 3 == 0);
     }
+    unrepresentable_cases(c);
     witnesses(c);
 }
 
@@ -717,18 +780,20 @@ fn witnesses(c: &mut Ctx) {
         }
         c.witness("F-C05-a", repro == 4, &format!("decrypt(\"owner\") on documents encrypted with owner=\"owner\", user=\"user\": {}", detail.join("; ")));
     }
-    // F-C05-b: R<=4 password sanitising drops every non-PDFDoc character
+    // F-C05-b (repaired): R<=4 passwords with characters outside PDFDocEncoding were shortened (to the empty password)
     if let Some(_r) = c.case("witness", 1) {
         let mut cfg = base_cfg(Ver::V2(128)); cfg.user = "пароль".into(); cfg.owner = "владелец".into();
         let orig = simple_doc();
-        let mut what = String::new(); let mut repro = false;
-        if let Ok(e) = encrypt_real(c, &cfg, &orig) {
-            let accepted_other = decrypt_real(c, &e, "密码", &[]).is_ok();
-            let accepted_empty = e.doc.authenticate_user_password("").is_ok();
-            repro = accepted_other && accepted_empty && e.user_b.is_empty();
-            what = format!("user password \"пароль\" sanitised to {} bytes; decrypt(\"密码\") ok={}, authenticate_user_password(\"\") ok={}", e.user_b.len(), accepted_other, accepted_empty);
+        let created = matches!(guard(|| cfg.make_state(&orig)), Ok(Ok(_)));
+        // a document without user password: a non-Latin password must not open it "as the empty password"
+        let mut cfg2 = base_cfg(Ver::V2(128)); cfg2.user = String::new();
+        let (mut accepted_other, mut auth_other) = (false, false);
+        if let Ok(e) = encrypt_real(c, &cfg2, &orig) {
+            accepted_other = decrypt_real(c, &e, "密码", &[]).is_ok();
+            auth_other = e.doc.authenticate_user_password("密码").is_ok();
         }
-        c.witness("F-C05-b", repro, &what);
+        c.witness("F-C05-b", created || accepted_other || auth_other,
+            &format!("V2(128): try_from with user \"пароль\" succeeded={}; on a document with an empty user password decrypt(\"密码\") ok={}, authenticate_user_password(\"密码\") ok={}", created, accepted_other, auth_other));
     }
     // F-C05-c: R5/R6 password longer than 127 bytes: hashed in full when creating, truncated when checking
     if let Some(_r) = c.case("witness", 2) {
